@@ -131,3 +131,10 @@ REG.add(Contract(f"{LM}.__init__", module=M_EA, kind="method", view="string", pa
                           "forall(Filter, lambda f: implies(f in self._module_filter_mapping, (self._module_filter_mapping[f] in layer_mapping_for_module_filters) and "
                           "(f in layer_mapping_for_module_filters[self._module_filter_mapping[f]])))"],
                  properties=["C05", "C14"]))
+
+# the two observers of a layer definition (C05): what the default view's layers_of(L) / lm_filters(L, layer) denote on the real object
+REG.add(Contract(f"{LM}.all_layers@str", module=M_EA, qualname=f"{LM}.all_layers", kind="property", view="string", params=dict(self=LM), returns="Bag[Str]",
+                 ensures=["forall(Str, lambda l: (l in result) == (l in self._layer_mapping_for_module_filters))"], properties=["C05"]))
+REG.add(Contract(f"{LM}.get_module_filters@str", module=M_EA, qualname=f"{LM}.get_module_filters", kind="method", view="string", params=dict(self=LM, layer="Str"), returns="Bag[Filter]",
+                 # C13: a layer that was never defined is a lookup error
+                 raises=[("KeyError", "not (layer in self._layer_mapping_for_module_filters)")], defn="self._layer_mapping_for_module_filters[layer]", properties=["C05"]))
